@@ -1,48 +1,86 @@
 #!/usr/bin/env python3
-"""mutants.py [ids...]  - apply each seeded change (seeded/<id>/patch.diff) to /repo, run the survey
-(all properties judged on one pass over the trace sources), undo the change, and record which
-properties' checks noticed it in seeded/<id>/result.json.  /repo must be clean."""
-import json, os, subprocess, sys, time
+"""mutants.py [-j N] [--out DIR] [ids...]  - judge each seeded change (seeded/<id>/patch.diff): a scratch worktree of
+/repo's HEAD is created outside /repo and /verif, the change is applied there, the survey (all properties judged on one
+pass over the quick-tier trace sources) is run against that worktree (VERIF_REPO), and the worktree is removed with its
+build output.  Which properties' checks noticed the change is recorded in <out>/<id>/result.json (default: seeded/).
+With --in-repo the change is applied to /repo itself instead (one at a time; /repo must be clean) and undone afterwards."""
+import argparse, json, os, shutil, subprocess, sys, tempfile, time
+from concurrent.futures import ThreadPoolExecutor
 
 VERIF = os.path.dirname(os.path.dirname(os.path.abspath(__file__)))
-SEEDED = os.path.join(VERIF, "seeded")
-REPO = os.environ.get("VERIF_REPO", "/repo")
 
 
 def sh(cmd, **kw):
     return subprocess.run(cmd, shell=True, stdout=subprocess.PIPE, stderr=subprocess.STDOUT, text=True, **kw)
 
 
-def main():
-    ids = sys.argv[1:] or sorted(os.listdir(SEEDED))
-    if sh("git -C %s status --porcelain" % REPO).stdout.strip():
-        print("/repo is not clean")
-        sys.exit(2)
-    for mid in ids:
-        d = os.path.join(SEEDED, mid)
-        patch = os.path.join(d, "patch.diff")
-        if not os.path.exists(patch):
-            continue
-        meta = json.load(open(os.path.join(d, "meta.json")))
-        r = sh("git -C %s apply %s" % (REPO, patch))
+def one(mid, a):
+    d = os.path.join(VERIF, a.dir, mid)
+    patch = os.path.join(d, "patch.diff")
+    if not os.path.exists(patch):
+        return
+    meta = json.load(open(os.path.join(d, "meta.json"))) if os.path.exists(os.path.join(d, "meta.json")) else {}
+    if a.in_repo:
+        wt = "/repo"
+    else:
+        wt = tempfile.mkdtemp(prefix="mut-%s-" % mid, dir="/tmp")
+        os.rmdir(wt)
+        r = sh("git -C /repo worktree add -q --detach %s HEAD" % wt)
         if r.returncode != 0:
-            print(mid, "patch does not apply:", r.stdout[-300:])
-            continue
-        t0 = time.time()
-        try:
-            out = sh("python3 %s/bin/check.py --survey --tier quick" % VERIF, cwd=VERIF, timeout=1800).stdout
-        finally:
-            sh("git -C %s checkout -- ." % REPO)
-        res = {}
-        for line in out.splitlines():
-            if line.startswith("SURVEY "):
-                res = json.loads(line[7:])
-        res["wall_s"] = round(time.time() - t0)
-        res["target"] = (meta.get("breaks_property") or meta.get("property"))
-        res["detected"] = (meta.get("breaks_property") or meta.get("property")) in res.get("violated", {})
-        json.dump(res, open(os.path.join(d, "result.json"), "w"), indent=1)
-        print(mid, "target", (meta.get("breaks_property") or meta.get("property")), "DETECTED" if res["detected"] else "MISSED",
-              "violated:", sorted(res.get("violated", {})), "nonconf:", res.get("nonconf"), "errors:", res.get("errors"), flush=True)
+            print(mid, "worktree failed", r.stdout[-300:], flush=True)
+            return
+    t0 = time.time()
+    try:
+        r = sh("git -C %s apply %s" % (wt, patch))
+        if r.returncode != 0:
+            print(mid, "patch does not apply:", r.stdout[-300:], flush=True)
+            return
+        env = dict(os.environ, VERIF_REPO=wt)
+        out = sh("python3 %s/bin/check.py --survey --tier quick" % VERIF, cwd=VERIF, timeout=3600, env=env).stdout
+    finally:
+        if a.in_repo:
+            sh("git -C /repo checkout -- .")
+        else:
+            sh("git -C /repo worktree remove --force %s" % wt)
+            shutil.rmtree(wt, ignore_errors=True)
+    res = {}
+    for line in out.splitlines():
+        if line.startswith("SURVEY "):
+            res = json.loads(line[7:])
+    if not res:
+        res = {"errors": ["no survey output: " + out[-500:]]}
+    res["wall_s"] = round(time.time() - t0)
+    outd = os.path.join(a.out or os.path.join(VERIF, a.dir), mid)
+    os.makedirs(outd, exist_ok=True)
+    if a.dir == "seeded":
+        target = meta.get("breaks_property") or meta.get("property")
+        res["target"] = target
+        res["detected"] = target in res.get("violated", {})
+        print(mid, "target", target, "DETECTED" if res["detected"] else "MISSED", "violated:", sorted(res.get("violated", {})),
+              "nonconf:", res.get("nonconf"), "errors:", [e[:200] for e in res.get("errors", [])], flush=True)
+    else:
+        res["false_alarm"] = bool(res.get("violated")) or bool(res.get("errors"))
+        print(mid, "FALSE-ALARM" if res["false_alarm"] else "quiet", "violated:", sorted(res.get("violated", {})),
+              "nonconf:", res.get("nonconf"), "errors:", [e[:200] for e in res.get("errors", [])], flush=True)
+    json.dump(res, open(os.path.join(outd, "result.json"), "w"), indent=1)
+
+
+def main():
+    ap = argparse.ArgumentParser()
+    ap.add_argument("-j", type=int, default=1)
+    ap.add_argument("--out")
+    ap.add_argument("--dir", default="seeded", help="seeded | benign")
+    ap.add_argument("--in-repo", action="store_true")
+    ap.add_argument("ids", nargs="*")
+    a = ap.parse_args()
+    ids = a.ids or sorted(os.listdir(os.path.join(VERIF, a.dir)))
+    if a.in_repo:
+        if sh("git -C /repo status --porcelain").stdout.strip():
+            print("/repo is not clean")
+            sys.exit(2)
+        a.j = 1
+    with ThreadPoolExecutor(max_workers=a.j) as ex:
+        list(ex.map(lambda m: one(m, a), ids))
 
 
 if __name__ == "__main__":
